@@ -213,6 +213,56 @@ pub fn run(ctx: &mut Ctx) {
             judge(case, &model, &reach, strategy.name(), threads, &out);
         }
     });
+    // "... and is_done is true": before completion the helpers must not present a verdict. An
+    // on-demand checker that has not been asked to do anything yet is incomplete by construction
+    // (given an in-boundary initial state and at least one property), whatever the schedule.
+    ctx.cases("before_completion", ctx.n(300, 5000), 0, |case| {
+        let mut g = gen_graph(&mut case.rng, &Knobs { allow_outside_inits: false, ..Knobs::default() });
+        let reach = g.reach();
+        let k = case.rng.range(1, 4);
+        let e = case.rng.below(2);
+        add_mixed_props(&mut case.rng, &mut g, &reach, k, e);
+        if reach.count == 0 {
+            case.distinct(g.structural_hash(), false);
+            return;
+        }
+        case.distinct(g.structural_hash(), reach.count >= 2);
+        let model = GraphModel(Arc::new(g));
+        case.sample(|| model.summary());
+        use stateright::{Checker, Model};
+        let threads = *case.rng.pick(&[1usize, 2, 3]);
+        let c = model.clone().checker().threads(threads).spawn_on_demand();
+        let wit = || json!({"model": model.summary(), "threads": threads});
+        let done_before = c.is_done();
+        case.add("incomplete_checkers_observed", 1);
+        if done_before {
+            case.violation("C02/on_demand/is_done-true-before-anything-was-checked", wit());
+            return;
+        }
+        if crate::ctx::guarded(|| c.assert_properties()).is_ok() {
+            case.violation("C02/on_demand/helper/assert_properties-succeeds-on-an-incomplete-check", wit());
+            return;
+        }
+        for p in model.properties() {
+            case.add("incomplete_helper_calls", 2);
+            if crate::ctx::guarded(|| c.assert_no_discovery(p.name)).is_ok() {
+                case.violation("C02/on_demand/helper/assert_no_discovery-succeeds-on-an-incomplete-check", json!({"run": wit(), "property": p.name}));
+                return;
+            }
+            if crate::ctx::guarded(|| c.assert_any_discovery(p.name)).is_ok() {
+                case.violation("C02/on_demand/helper/assert_any_discovery-succeeds-without-a-discovery", json!({"run": wit(), "property": p.name}));
+                return;
+            }
+        }
+        // let it finish so that no worker thread is left waiting
+        c.run_to_completion();
+        let mut c = c;
+        let hs = c.handles();
+        let t = std::time::Instant::now();
+        while hs.iter().any(|h| !h.is_finished()) && t.elapsed() < std::time::Duration::from_secs(30) {
+            std::thread::sleep(std::time::Duration::from_micros(200));
+        }
+    });
     // frontiers wider than one 1500-state block, with the only witness / violation far from the
     // initial states
     ctx.cases("verdicts_wide_frontier", ctx.n(6, 120), 3, |case| {
